@@ -17,6 +17,7 @@ import (
 	"verifharness/internal/kit"
 
 	"github.com/google/martian/v3/h2"
+	mgrpc "github.com/google/martian/v3/h2/grpc"
 	mlog "github.com/google/martian/v3/log"
 	"golang.org/x/net/http2"
 	"golang.org/x/net/http2/hpack"
@@ -301,6 +302,39 @@ func PassThroughFactory() h2.StreamProcessorFactory {
 // NilFactory returns a factory that declines to process (nil, nil).
 func NilFactory() h2.StreamProcessorFactory {
 	return func(_ *url.URL, _ *h2.Processors) (h2.Processor, h2.Processor) { return nil, nil }
+}
+
+// HalfFactory returns a factory whose processors forward every call; it supplies one for
+// the client-to-server direction only if c2s, for the other only if s2c (nil otherwise: an
+// observer of one direction).
+func HalfFactory(c2s, s2c bool) h2.StreamProcessorFactory {
+	return func(_ *url.URL, sinks *h2.Processors) (h2.Processor, h2.Processor) {
+		var a, b h2.Processor
+		if c2s {
+			a = &passThrough{sinks.ForDirection(h2.ClientToServer)}
+		}
+		if s2c {
+			b = &passThrough{sinks.ForDirection(h2.ServerToClient)}
+		}
+		return a, b
+	}
+}
+
+// GRPCFactory returns the library's gRPC adapter around processors that pass every header
+// list and message on unchanged: gRPC streams are parsed into messages and framed again.
+func GRPCFactory() h2.StreamProcessorFactory {
+	return mgrpc.AsStreamProcessorFactory(func(_ *url.URL, server, client mgrpc.Processor) (mgrpc.Processor, mgrpc.Processor) {
+		return server, client
+	})
+}
+
+// Chain builds a factory list from kinds: 0 (nil,nil), 1 (proc,proc), 2 (proc,nil), 3 (nil,proc).
+func Chain(kinds []int) []h2.StreamProcessorFactory {
+	var out []h2.StreamProcessorFactory
+	for _, k := range kinds {
+		out = append(out, HalfFactory(k == 1 || k == 2, k == 1 || k == 3))
+	}
+	return out
 }
 
 // Factories maps a configuration index to a factory list: 0 none, 1 a factory
